@@ -334,6 +334,12 @@ impl Check for C09Check {
         } else if base.end != End::Exhausted {
             return CaseResult { verdict: Verdict::Inconclusive("budget".into()), facts };
         }
+        if infinite {
+            facts.metrics.insert(
+                "prefix_quanta_over_budget",
+                base.stats.quanta as f64 / case.cfg.quanta_budget as f64,
+            );
+        }
         let reference = &base.answers;
         let mut trace = base.stats.trace_hash;
         let mut perturbed = false;
